@@ -22,6 +22,30 @@ type Style struct {
 	AnonFK    bool   `json:"anon_fk"`    // foreign keys without CONSTRAINT <name>
 	GenAlways bool   `json:"gen_always"` // GENERATED ALWAYS AS (...) instead of AS (...)
 	TightExpr bool   `json:"tight_expr"` // CHECK(expr) / WHERE written without the canonical spacing
+	// FKCase writes the foreign key clauses (CONSTRAINT … FOREIGN KEY … REFERENCES … ON DELETE …) in
+	// "lower" or "mixed" case instead of upper case, as hand-written DDL often is.
+	FKCase string `json:"fk_case,omitempty"`
+}
+
+// ExtraStyles are styles StyleByName knows but that are NOT part of Styles (monitors iterating over
+// Styles keep their workloads): foreign key clauses typed in lower / mixed case.
+var ExtraStyles = []Style{
+	{Name: "lower-fk", Quote: "", Inline: false, Multiline: false, FKCase: "lower"},
+	{Name: "lower-fk-inline", Quote: `"`, Inline: true, Multiline: true, FKCase: "lower"},
+	{Name: "mixed-fk", Quote: "`", Inline: false, Multiline: true, FKCase: "mixed"},
+}
+
+// fkCase applies the style's case to a foreign key clause (identifiers are lower case already).
+func (st Style) fkCase(s string) string {
+	switch st.FKCase {
+	case "lower":
+		return strings.ToLower(s)
+	case "mixed":
+		r := strings.NewReplacer("CONSTRAINT", "Constraint", "FOREIGN KEY", "Foreign Key", "REFERENCES", "References", " ON ", " On ", "DELETE", "Delete", "UPDATE", "Update",
+			"CASCADE", "Cascade", "SET NULL", "Set Null", "SET DEFAULT", "Set Default", "RESTRICT", "Restrict", "NO ACTION", "No Action")
+		return r.Replace(s)
+	}
+	return s
 }
 
 // Styles are the surface styles used by the monitors.
@@ -40,6 +64,11 @@ var Styles = []Style{
 // StyleByName finds a style.
 func StyleByName(n string) (Style, bool) {
 	for _, s := range Styles {
+		if s.Name == n {
+			return s, true
+		}
+	}
+	for _, s := range ExtraStyles {
 		if s.Name == n {
 			return s, true
 		}
@@ -184,9 +213,9 @@ func (t Table) createTable(st Style) string {
 				if len(f.Cols) == 1 && f.Cols[0] == c.Name && !usedFK[f.Name] && c.Gen == nil {
 					usedFK[f.Name] = true
 					if !st.AnonFK {
-						fmt.Fprintf(&b, " CONSTRAINT %s", st.q(f.Name))
+						b.WriteString(st.fkCase(" CONSTRAINT ") + st.q(f.Name))
 					}
-					fmt.Fprintf(&b, " REFERENCES %s (%s)%s", st.q(f.RefTable), st.qs(f.RefCols), fkActions(f))
+					b.WriteString(st.fkCase(" REFERENCES ") + st.q(f.RefTable) + " (" + st.qs(f.RefCols) + ")" + st.fkCase(fkActions(f)))
 				}
 			}
 		}
@@ -221,9 +250,9 @@ func (t Table) createTable(st Style) string {
 		if usedFK[f.Name] {
 			continue
 		}
-		d := fmt.Sprintf("FOREIGN KEY (%s) REFERENCES %s (%s)%s", st.qs(f.Cols), st.q(f.RefTable), st.qs(f.RefCols), fkActions(f))
+		d := st.fkCase("FOREIGN KEY (") + st.qs(f.Cols) + st.fkCase(") REFERENCES ") + st.q(f.RefTable) + " (" + st.qs(f.RefCols) + ")" + st.fkCase(fkActions(f))
 		if !st.AnonFK {
-			d = fmt.Sprintf("CONSTRAINT %s %s", st.q(f.Name), d)
+			d = st.fkCase("CONSTRAINT ") + st.q(f.Name) + " " + d
 		}
 		items = append(items, d)
 	}
